@@ -50,8 +50,16 @@ def effective_block(fn, c, op):
         if sw is not None:
             for s in fn.succ(b):
                 e = paths.edge_cond(fn, b, s)
-                if e and e[0] == 'bool' and paths.mentions_call(e[1], c.bb) and strip(e[1])[0] == 'call' and e[2]:
-                    return s, arms
+                if e and e[0] == 'bool' and paths.mentions_call(e[1], c.bb):
+                    # the payload itself or its negation(s): `if existed {..}` / `if !existed { return .. }`
+                    t0 = strip(e[1])
+                    truth = e[2]
+                    while t0[0] == 'unop' and t0[1] == 'Not':
+                        t0 = strip(t0[2])
+                        truth = not truth
+                    plain = t0[0] == 'call' or (t0[0] == 'field' and t0[2] == '0') or t0[0] in ('try', 'var', 'phi')
+                    if plain and truth and not any(y[0] == 'binop' for y in walk(t0)):
+                        return s, arms
             continue
         st.extend(fn.succ(b))
     return None, arms
@@ -222,38 +230,58 @@ def _calls_in(t, needle):
 
 
 def r_need_build(ctx):
+    """need_build answers (updated scan non-empty) OR (metadata absent): finite-domain evaluation (sa/enumeval.py) of the
+    function under the four combinations of the two observations, independent of how the answer is spelled"""
     F = ctx.F
     rule = 'R-NEEDBUILD'
     f = F.one('writer::Writer::<D>::need_build')
     if not ctx.need(f is not None, rule, 'Writer::need_build'):
         return
+    import enumeval
+    seen_obs = set()
 
-    def atom_of(t):
-        o = _observation(t, True)
-        if o is None:
+    def hook_for(M, U):
+        def hook(ev, fn, t, b):
+            callee = t.get('callee') or ''
+            c = fn.call_at(b)
+            if c is None:
+                return None
+            h = heed_db_call(c)
+            if h and h[0] == 'get' and h[2] is not None:
+                ki = key_info(c.arg_term(h[2]))
+                if ki and ki[0] == 'metadata':
+                    seen_obs.add('M')
+                    return {(): frozenset([0]), ('@Ok', '0'): frozenset([1 if M else 0])}
+            if callee.endswith('Iterator::next') and c.args and updated_scan(('call', callee, [c.arg_term(0)], b)):
+                seen_obs.add('U')
+                return {(): frozenset([1 if U else 0])}
+            if callee.startswith('heed::Database') and not callee.endswith(('::remap_types', '::remap_data_type', '::remap_key_type')):
+                return {(): frozenset([0])}
             return None
-        return {'updated-nonempty': ('U', True), 'updated-empty': ('U', False),
-                'metadata-absent': ('M', True), 'metadata-present': ('M', False)}[o]
-    rows, problems = paths.bool_function(f, atom_of)
-    bad = list(problems)
+        return hook
+    bad = []
     n = 0
-    for assign, vals in rows.items():
-        a = dict(assign)
-        for u in ([a['U']] if 'U' in a else [True, False]):
-            for m in ([a['M']] if 'M' in a else [True, False]):
-                for v in vals:
-                    n += 1
-                    if v is True or v is False:
-                        got = v
-                    elif v[0] == 'atom':
-                        got = ({'U': u, 'M': m}[v[1]] == v[2])
-                    else:
-                        bad.append('unrecognised answer %s' % (v,))
-                        continue
-                    if got != (u or m):
-                        bad.append('updated-nonempty=%s metadata-absent=%s => %s' % (u, m, got))
-    ctx.check(bool(rows) and not bad, rule, 'need_build/truth-table', f.loc(),
-              'answers (updated scan non-empty) OR (metadata absent) on all %d path/valuation rows' % n,
+    for M in (False, True):
+        for U in (False, True):
+            enumeval.reset()
+            ev = enumeval.Eval(F, f, call_hook=hook_for(M, U)).run()
+            got = set()
+            for rb, tree in ev.ret_trees.items():
+                v = tree.get(())
+                if v is None:
+                    got.add('?')
+                    continue
+                if 0 in v:
+                    pv = tree.get(('@Ok', '0'))
+                    got |= {bool(x) for x in pv} if pv else {'?'}
+            n += 1
+            want = U or not M
+            if got != {want}:
+                bad.append('updated-nonempty=%s metadata-absent=%s => %s' % (U, not M, sorted(map(str, got))))
+    if seen_obs != {'M', 'U'}:
+        bad.append('observations made: %s (expected the metadata lookup and the updated-mark scan of the index)' % sorted(seen_obs))
+    ctx.check(not bad, rule, 'need_build/truth-table', f.loc(),
+              'answers (updated scan non-empty) OR (metadata absent) under all %d valuations' % n,
               'Writer::need_build is not {updated scan non-empty} OR {metadata absent}: %s' % sorted(set(bad))[:4])
 
 
